@@ -27,8 +27,9 @@ SummaryOK(r) ==
             /\ ShownOK(r.p_s, r.s) /\ ShownOK(r.p_f, r.f) /\ ShownOK(r.p_d, r.d)
             /\ PctOK(r.pct_s, r.s, Total(r)) /\ PctOK(r.pct_f, r.f, Total(r)) /\ PctOK(r.pct_d, r.d, Total(r))
        ELSE /\ r.p_s = r.s /\ r.p_f = r.f /\ r.p_d = r.d           \* structured log: iteration_stats group
-            \* the group's "started" is the started count, or - when the renderer was given 0 - the sum of the three
-            /\ (r.p_started = r.s + r.f \/ r.p_started = Total(r))
+            \* the group's "started" is the result's started count (finished bodies); 0 is the renderer's
+            \* "not given" sentinel, for which it states the sum of the three instead
+            /\ (r.p_started = r.s + r.f \/ (r.s + r.f = 0 /\ r.p_started = Total(r)))
 
 ProgressOK(r) ==
     /\ r.panicked = FALSE
